@@ -92,6 +92,10 @@ func tmo(d time.Duration) time.Duration {
 	return d
 }
 
+// hangBound bounds every call into the code under test that has no deadline of its own
+// (a call that blocks on the connection's mutex ignores read/write deadlines).
+func hangBound() time.Duration { return tmo(25 * time.Second) }
+
 func (a Action) Coq() string {
 	switch a.A {
 	case "send":
@@ -544,7 +548,17 @@ func (e *env) run(plan []Action) (exec []Action, res []Res, frames []Msg, hs *Ms
 				return fmt.Sprintf("connection %d was never surfaced", a.C)
 			}
 			s.exec = append(s.exec, a)
-			s.res = append(s.res, s.readOnce(s.tcp[a.C], a.N, 40*time.Millisecond, false))
+			rch := make(chan Res, 1)
+			rc := s.tcp[a.C]
+			go func() { rch <- s.readOnce(rc, a.N, 40*time.Millisecond, false) }()
+			select {
+			case r := <-rch:
+				s.res = append(s.res, r)
+			case <-time.After(hangBound()):
+				s.res = append(s.res, Res{K: "panic"})
+				s.rbuf = nil // the stuck Read still owns the old buffer
+				return fmt.Sprintf("handler-did-not-return: Read on surfaced connection %d blocks beyond its deadline", a.C)
+			}
 		case "park":
 			if a.C >= len(s.tcp) {
 				return fmt.Sprintf("connection %d was never surfaced", a.C)
@@ -561,8 +575,8 @@ func (e *env) run(plan []Action) (exec []Action, res []Res, frames []Msg, hs *Ms
 			select {
 			case r := <-ch:
 				s.res[idx] = r
-			case <-time.After(tmo(2 * time.Second)):
-				return "a waiting Read returned neither data, EOF nor a timeout"
+			case <-time.After(hangBound()):
+				return "handler-did-not-return: a waiting Read returned neither data, EOF nor a timeout"
 			}
 		case "write":
 			if a.C >= len(s.tcp) {
@@ -574,7 +588,23 @@ func (e *env) run(plan []Action) (exec []Action, res []Res, frames []Msg, hs *Ms
 			s.exec = append(s.exec, a)
 			p := a.P.Bytes()
 			s.tcp[a.C].SetWriteDeadline(time.Now().Add(tmo(2 * time.Second)))
-			n, err := s.writeReused(s.tcp[a.C], p, a.refill())
+			type wres struct {
+				n   int
+				err error
+			}
+			wch := make(chan wres, 1)
+			wc := s.tcp[a.C]
+			go func() { n, err := s.writeReused(wc, p, a.refill()); wch <- wres{n, err} }()
+			var n int
+			var err error
+			select {
+			case w := <-wch:
+				n, err = w.n, w.err
+			case <-time.After(hangBound()):
+				s.res = append(s.res, Res{K: "panic"})
+				s.wbuf = nil
+				return fmt.Sprintf("handler-did-not-return: Write on surfaced connection %d blocks beyond its deadline", a.C)
+			}
 			if err != nil || n != len(p) {
 				s.res = append(s.res, Res{K: "panic"})
 				return fmt.Sprintf("Write on a surfaced connection failed: n=%d err=%v", n, err)
@@ -594,8 +624,8 @@ func (e *env) run(plan []Action) (exec []Action, res []Res, frames []Msg, hs *Ms
 			go func() { cc.Close(); close(cd) }()
 			select {
 			case <-cd:
-			case <-time.After(tmo(2 * time.Second)):
-				return "Close on a surfaced connection does not return"
+			case <-time.After(hangBound()):
+				return "handler-did-not-return: Close on a surfaced connection does not return"
 			}
 			s.res = append(s.res, Res{K: "none"})
 		case "udpw":
@@ -607,7 +637,23 @@ func (e *env) run(plan []Action) (exec []Action, res []Res, frames []Msg, hs *Ms
 			a.udpL, a.udpR = &l, &r
 			s.exec = append(s.exec, a)
 			p := a.P.Bytes()
-			if n, err := s.writeReused(u, p, a.refill()); err != nil || n != len(p) {
+			uch := make(chan error, 1)
+			go func() {
+				n, err := s.writeReused(u, p, a.refill())
+				if err == nil && n != len(p) {
+					err = fmt.Errorf("short write %d", n)
+				}
+				uch <- err
+			}()
+			var uerr error
+			select {
+			case uerr = <-uch:
+			case <-time.After(hangBound()):
+				s.res = append(s.res, Res{K: "panic"})
+				s.wbuf = nil
+				return "handler-did-not-return: Write on a datagram connection blocks"
+			}
+			if n, err := len(p), uerr; err != nil {
 				s.res = append(s.res, Res{K: "panic"})
 				return fmt.Sprintf("Write on a datagram connection failed: n=%d err=%v", n, err)
 			}
